@@ -738,6 +738,45 @@ theorem isRNearest_vals (f : α → D) (rad : D) (live r : List (Elem α)) (m : 
 
 end Run
 
+
+/-! ### answers as distance lists are determined by the multiset -/
+
+section DistLists
+variable [LinearOrder D]
+
+/-- two k-nearest answers over the same multiset have the same distance list. -/
+theorem isKNearest_dists_unique {β : Type} (f : β → D) (k : Nat) (m1 m2 r1 r2 : List β)
+    (h1 : IsKNearest f k m1 r1) (h2 : IsKNearest f k m2 r2) (hp : m1.Perm m2) : r1.map f = r2.map f := by
+  obtain ⟨s1, l1, rest1, p1, le1⟩ := h1
+  obtain ⟨s2, l2, rest2, p2, le2⟩ := h2
+  have key : ∀ (r rest : List β), SortedBy f r → (∀ x ∈ r, ∀ y ∈ rest, f x ≤ f y) →
+      ((r ++ rest.mergeSort (leBy f)).map f).Pairwise (· ≤ ·) := by
+    intro r rest s le
+    rw [List.pairwise_map, List.pairwise_append]
+    refine ⟨s, sortedBy_mergeSort f rest, ?_⟩
+    intro a ha b hb
+    exact le a ha b ((List.mergeSort_perm rest (leBy f)).subset hb)
+  have hperm : ((r1 ++ rest1.mergeSort (leBy f)).map f).Perm ((r2 ++ rest2.mergeSort (leBy f)).map f) := by
+    apply List.Perm.map
+    refine ((List.Perm.append_left r1 (List.mergeSort_perm rest1 _)).trans p1).trans ?_
+    exact hp.trans (((List.Perm.append_left r2 (List.mergeSort_perm rest2 _)).trans p2).symm)
+  have heq := List.Perm.eq_of_pairwise (fun a b _ _ hab hba => le_antisymm hab hba)
+    (key r1 rest1 s1 le1) (key r2 rest2 s2 le2) hperm
+  rw [List.map_append, List.map_append] at heq
+  exact (List.append_inj heq (by rw [List.length_map, List.length_map, l1, l2, hp.length_eq])).1
+
+/-- two radius answers over the same multiset have the same distance list. -/
+theorem isRNearest_dists_unique {β : Type} (f : β → D) (rad : D) (m1 m2 r1 r2 : List β)
+    (h1 : IsRNearest f rad m1 r1) (h2 : IsRNearest f rad m2 r2) (hp : m1.Perm m2) : r1.map f = r2.map f := by
+  obtain ⟨s1, p1⟩ := h1
+  obtain ⟨s2, p2⟩ := h2
+  have hperm : (r1.map f).Perm (r2.map f) := ((p1.trans (hp.filter _)).trans p2.symm).map f
+  refine List.Perm.eq_of_pairwise (fun a b _ _ hab hba => le_antisymm hab hba) ?_ ?_ hperm
+  · rw [List.pairwise_map]; exact s1
+  · rw [List.pairwise_map]; exact s2
+
+end DistLists
+
 /-! ### the driver's kind of instance satisfies all hypotheses (used by the non-vacuity examples) -/
 
 def sampleCtx : Ctx (Int × Int) Int Nat :=
